@@ -2993,10 +2993,13 @@ func compositeBinStructNotype(n *node) { doCompositeBinStruct(n, false) }
 func destType(n *node) *itype {
 	switch n.anc.kind {
 	case assignStmt, defineStmt:
-		return n.anc.child[0].typ
-	default:
-		return n.typ
+		// The literal is built in the destination only if the assign operation is
+		// skipped: it has then the frame location of the destination.
+		if dest := n.anc.child[0]; n.findex == dest.findex && n.level == dest.level {
+			return dest.typ
+		}
 	}
+	return n.typ
 }
 
 func doComposite(n *node, hasType bool, keyed bool) {
